@@ -10,7 +10,7 @@ TD = "time_delta::TimeDelta"
 def run(chk, tier):
     P = Prog("default")
     chk.configs.add("default")
-    for r in (r_consts, r_new_box, r_units, r_absint, r_derive, r_shape, r_sum, r_checked_through_new, r_value_map):
+    for r in (r_consts, r_new_box, r_units, r_absint, r_derive, r_shape, r_sum, r_checked_through_new, r_opt_wrappers, r_value_map):
         chk.guarded(r, P, tier)
     chk.assume("exactness of checked_add/sub/mul/div results and the < 2 ns division bound are not decided (numerical content)")
     return {
@@ -339,3 +339,8 @@ def r_value_map(chk, P, tier):
                 extra.setdefault(c, fn)
     chk.expect(not extra, "piece boundaries", "constants %s occur in the folded functions but are not boundaries of the evaluated domain (a new piece of a piecewise-affine function: extend the domain)" % (
         sorted(extra.items())[:6],), loc=P.loc(TD + "::new"))
+
+
+def r_opt_wrappers(chk, P, tier=None):
+    import rules
+    rules.opt_wrappers(chk, P, ("time_delta::",), floor=6)
